@@ -15,6 +15,7 @@ import (
 	badgerdb "github.com/dgraph-io/badger/v2"
 	"github.com/ethereum/go-ethereum/crypto"
 	"github.com/ethereum/go-ethereum/p2p/discv5"
+	"github.com/vipnode/vipnode/v2/internal/verif/vsched"
 	"github.com/vipnode/vipnode/v2/pool/store"
 	"github.com/vipnode/vipnode/v2/pool/store/badger"
 	"github.com/vipnode/vipnode/v2/pool/store/memory"
@@ -182,6 +183,12 @@ func NewStoreSlot(driver string, slot int) store.Store {
 // OpenBadgerDir opens an on-disk store the way pool.go does.
 func OpenBadgerDir(dir string) (store.Store, error) {
 	return badger.Open(badgerdb.DefaultOptions(dir).WithLogger(nil))
+}
+
+func init() {
+	// record expiry inside the badger library follows the same clock as the driver's freshness
+	// window (virtual when a check turns the virtual clock on, the wall clock otherwise)
+	badgerdb.VerifNow = vsched.Now
 }
 
 var badgerDBType = reflect.TypeOf((*badgerdb.DB)(nil))
